@@ -45,6 +45,7 @@ Step ==
   /\ LET e == Trace[l] IN
      CASE e.ev = "New" -> Fresh
        [] e.ev = "prestart" ->
+            /\ Check(\A x \in inH : x[2] = e.g, "C06", "PreStart runs on one goroutine while Receive runs on another")
             /\ preStarted' = TRUE /\ psStarted' = FALSE /\ psCount' = 0      \* a new incarnation begins
             /\ UNCHANGED <<inH, owners, accepted, handled, started, disturbed, inPS>>
        [] e.ev = "enter" ->
